@@ -8,6 +8,9 @@ package suites
 //	               pushed through Client.Send and a PING is sent by the peer, so that the
 //	               lines the client wrote for this round are exactly those in front of the
 //	               PONG.
+//	cap.enum       as cap.session; the fixed part is the COMPLETE set of sessions of at most 3
+//	               steps over a 9-letter alphabet of server lines (incl. a reconnect) under 3
+//	               configurations; the generated part draws longer sequences over the alphabet.
 //	cap.ackremoval as cap.session, but the generated ACK lines may carry "-name" tokens
 //	               (IRCv3: the server acknowledges that the capability was DISABLED).
 //
@@ -1002,4 +1005,59 @@ func init() {
 			{"", "", "away-notify -away-notify", ev("*", "LS", "away-notify"), ev("me", "ACK", "away-notify"), ev("me", "ACK", "-away-notify")},
 		}
 	}))
+}
+
+// ---- cap.enum: complete enumeration of short sessions
+
+var capEnumAlphabet = func() []string {
+	ev := func(p ...string) string { return strings.Join(p, "\n") }
+	return []string{
+		ev("*", "LS", "*", "multi-prefix sts=port=6697"), // continuation line
+		ev("*", "LS", "sasl message-tags"),               // final line
+		ev("*", "LS", "unknown-cap"),                     // nothing usable by itself
+		ev("me", "ACK", "sasl message-tags"),
+		ev("me", "ACK", "multi-prefix sts"),
+		ev("me", "NAK", "sasl"),
+		ev("me", "NEW", "batch"),
+		ev("me", "DEL", "message-tags batch"),
+		capReconnect,
+	}
+}()
+
+var capEnumConfigs = []string{"", "S", "SD"}
+
+const capEnumProbes = "sasl SASL message-tags multi-prefix batch sts"
+
+func init() {
+	Register(&Suite{
+		Name: "cap.enum",
+		Prop: []string{"C08"},
+		Exhaustive: "every sequence of at most 3 steps over 9 server lines (LS continuation, LS final, LS with nothing usable, " +
+			"two ACKs, NAK, NEW, DEL, reconnect) under the configurations {default, SASL, SASL+DisableSTS}: 3 x 820 sessions",
+		Fixed: func() []Case {
+			var out []Case
+			var rec func(prefix []string, depth int)
+			for _, bits := range capEnumConfigs {
+				rec = func(prefix []string, depth int) {
+					out = append(out, append(Case{bits, "", capEnumProbes}, prefix...))
+					if depth == 3 {
+						return
+					}
+					for _, a := range capEnumAlphabet {
+						rec(append(append([]string(nil), prefix...), a), depth+1)
+					}
+				}
+				rec(nil, 0)
+			}
+			return out
+		},
+		Gen: func(r *rand.Rand) Case {
+			c := Case{Pick(r, capEnumConfigs...), "", capEnumProbes}
+			for n := 4 + r.Intn(4); n > 0; n-- {
+				c = append(c, Pick(r, capEnumAlphabet...))
+			}
+			return c
+		},
+		Run: func(c Case) Result { return runCapSession(c) },
+	})
 }
